@@ -212,7 +212,7 @@ func rootResult(hash []byte, err error) string {
 // Set is Store.Set. status is the printed answer.
 func (e *Eng) Set(parent []byte, height int64, kvs []KV) (root []byte, status string) {
 	status = gen.Guard(func() string {
-		h, err := e.store.Set(storeSet(parent, height, kvs), true)
+		h, err := e.store.Set(storeSet(parent, height, kvs), false)
 		root = h
 		return rootResult(h, err)
 	})
@@ -223,7 +223,7 @@ func (e *Eng) Set(parent []byte, height int64, kvs []KV) (root []byte, status st
 // MemSet is Store.MemSet.
 func (e *Eng) MemSet(parent []byte, height int64, kvs []KV) (root []byte, status string) {
 	status = gen.Guard(func() string {
-		h, err := e.store.MemSet(storeSet(parent, height, kvs), true)
+		h, err := e.store.MemSet(storeSet(parent, height, kvs), false)
 		root = h
 		return rootResult(h, err)
 	})
